@@ -16,7 +16,7 @@ def small_streams(rng, tier):
                 out.append(("+".join(plan), s)); break
     return out
 
-def gen(tier, rng):
+def gen(tier, rng, own=()):
     scns = []
     k = 0
     def runs(st, mode, meta, cpus=("host",), sch=None):
@@ -73,6 +73,17 @@ def gen(tier, rng):
     for mode in (1, 3, 5, 6):
         m = bytearray(inflfam.wrap_stream(mode, raw, text)); m[-1] ^= 0x10
         runs(bytes(m), mode, {"family": "fault:trailer", "expect_ret": -6})
+    # (e) streams made by ISA-L's own compressor as parents (default-table dynamic header: the decoder has a fast path that recognises it when
+    #     more than 118 input bytes are offered at once): every bit of the first 20 bytes and a stride beyond, one-shot, whole-input streaming and small pieces
+    for name, raw in own:
+        for byte in range(min(len(raw), 20 if tier == "quick" else 64)):
+            for bit in range(8):
+                m = bytearray(raw); m[byte] ^= 1 << bit
+                runs(bytes(m), 0, {"family": "bitflip-own-stream", "parent": name}, [inflfam.KERNEL_CPUS[(byte + bit) % 3]],
+                     sch=[("inflate_stateless", [[len(raw), 1 << 16, 0, 0]], 1 << 16, 1 << 16), ("inflate", [], 1 << 16, 1 << 16)] + ([("inflate", [], 5, 300)] if bit % 4 == 0 else []))
+        for _ in range(20 if tier == "quick" else 200):
+            m = bytearray(raw); i = rng.randrange(20, len(raw)); m[i] ^= 1 << rng.randrange(8)
+            runs(bytes(m), 0, {"family": "bitflip-own-stream", "parent": name}, [inflfam.KERNEL_CPUS[i % 3]], sch=[("inflate_stateless", [[len(raw), 1 << 16, 0, 0]], 1 << 16, 1 << 16)])
     # (d) random byte strings
     for _ in range(60 if tier == "quick" else 600):
         runs(bytes(rng.randrange(256) for _ in range(rng.randrange(0, 80))), rng.choice([0, 0, 1, 3, 5, 6]), {"family": "random-bytes"})
@@ -82,7 +93,15 @@ def run(tier, replay=None):
     v = Verdict("C06", tier)
     rng = random.Random(seed() * 39373 % (1 << 31) + 6)
     wd = workdir("c06")
-    scns = [json.load(open(replay))["replay"]["scenario"]] if replay else gen(tier, rng)
+    own = []
+    if not replay:      # parents produced by the library's own compressor (inputs only; the spec judges every mutant)
+        ps = [igz.scenario(i, "deflate_stateless", igz.corpus(rng, cls, n), level=lvl, wrap=0, table=tab, calls=[[n, n + 600, 0, 1]], meta={"family": "own-parent"})
+              for i, (cls, n, lvl, tab) in enumerate([("text", 420, 0, 0), ("records", 700, 1, 0), ("text", 300, 0, 1), ("lowent", 500, 2, 0)])]
+        recs, _, by0 = igz.merge(ps, igz.run_harness(ps, wd, "own"))
+        for p_ in ps:
+            o = [b for c in by0[p_["scn"]]["calls"] for b in c["out"]]
+            if len(o) > 30: own.append(("isal-level%d-table%d" % (p_["level"], p_["table"]), bytes(o)))
+    scns = [json.load(open(replay))["replay"]["scenario"]] if replay else gen(tier, rng, own)
     res, by, calls, tw = inflfam.run_and_judge(v, scns, wd, "c06")
     fam, cls = {}, {}
     for s in scns:
